@@ -21,7 +21,7 @@ namespace verif{
 
 namespace{
 
-const size_t ARENA_BYTES=(size_t)64<<20;
+const size_t ARENA_BYTES=(size_t)128<<20;
 const size_t GUARD=32;
 enum { KIND_CXX=0, KIND_CXX_ARRAY=1, KIND_C=2, KIND_USER=3 };
 enum { SITE_ALLOC=20, SITE_FREE=21, SITE_CALLOC=22, SITE_CFREE=23 };
@@ -101,6 +101,7 @@ void* arena_alloc(size_t size,int kind,int user_buf_id){
   size_t cap=(size+7)&~(size_t)7; if(cap==0) cap=8;
   int which=(kind==KIND_C)?1:0;
   int policy=(kind==KIND_C)?G.cfg.c_reuse:G.cfg.reuse;
+  if(policy==REUSE_NONE && G.bump>ARENA_BYTES/2) policy=REUSE_LIFO;   // very long runs: recycle rather than exhaust the arena
   Block* b=0;
   if(kind!=KIND_USER && policy!=REUSE_NONE){
     // candidates: freed blocks of exactly this capacity, in release order
@@ -170,7 +171,9 @@ bool arena_free(void* p,int expect_kind){
   }
   fill_words(b->user,b->cap,FREED_PATTERN);
   if(__asan_poison_memory_region) __asan_poison_memory_region(b->user,b->cap);
-  if(b->kind!=KIND_USER){
+  int pol=(b->kind==KIND_C)?G.cfg.c_reuse:G.cfg.reuse;
+  // under the no-reuse policy freed blocks stay quarantined and are not even linked (the list would be scanned on every allocation)
+  if(b->kind!=KIND_USER && (pol!=REUSE_NONE || G.bump>ARENA_BYTES/2)){
     int which=(b->kind==KIND_C)?1:0;
     b->next_free=-1;
     if(G.free_tail[which]>=0) G.blocks[G.free_tail[which]].next_free=i; else G.free_head[which]=i;
